@@ -304,7 +304,7 @@ def check_case(case, spec=None):
                                  alone=pipe.row_key(_fix_rules(alone)), rows=rows_in, form=form, batch_size=case.get("batch_size"))
                 else:
                     res.inconclusive = "mcs timeout text"
-    if r["stats"] is not None and r["stats"].get("reaction_cnt") != n:
+    if r["stats"] is not None and r["stats"].get("reaction_cnt", 0) != n:
         res.fail("stats-reaction_cnt", "reaction count", rows=rows_in, form=form, stats=r["stats"], batch_size=case.get("batch_size"))
     if r["tags"] is not None:
         exp = ["t%d" % i for i in range(n)]
@@ -368,6 +368,10 @@ def shards(tier):
 def _enum_cases(spec):
     v1, v2 = "CCO>>CC=O", "CC(=O)OC.O>>CC(=O)O"
     j = 0
+    if spec["part"] == 0:
+        for form in ("list_str", "list_dict", "csv", "json"):
+            for bs in (None, 1, 3):
+                yield {"rows": [], "form": form, "batch_size": bs, "ids": None}   # nothing in, nothing out, no error
     for kind, val in gen.MALFORMED:
         for pos in (0, 1, 2):
             rows = [v1, v2]
